@@ -107,9 +107,21 @@ Repeat ==
         /\ nbad' = nbad + (IF ok THEN 0 ELSE 1)
   /\ l' = l + 1
 
+\* K prefixes declared on the root element a, the xml prefix declared explicitly among them (or not): a and its child b each have
+\* K + 1 namespace nodes - 2(K + 1) different nodes at different positions, ascending; the union of the two sets has them all
+\* {"ev":"nsdecl","k":K,"at":J,"rootNs","childNs","all","distinctPos","asc","union"}
+NsDecl ==
+  /\ l <= Len(Trace) /\ Trace[l].ev = "nsdecl"
+  /\ LET ev == Trace[l]
+         n == ev.k + 1
+         ok == ev.rootNs = n /\ ev.childNs = n /\ ev.all = 2 * n /\ ev.distinctPos = 2 * n /\ ev.asc /\ ev.union = 2 * n
+     IN /\ (~ok => PrintT(ToJson([verdict |-> "nsdecl", l |-> l, want |-> [rootNs |-> n, childNs |-> n, all |-> 2 * n, distinctPos |-> 2 * n, asc |-> TRUE, union |-> 2 * n]])))
+        /\ nbad' = nbad + (IF ok THEN 0 ELSE 1)
+  /\ l' = l + 1
+
 Done ==
   /\ l = Len(Trace) + 1
   /\ PrintT(ToJson([verdict |-> "done", lines |-> Len(Trace), bad |-> nbad]))
   /\ l' = l + 1 /\ UNCHANGED nbad
-Next == ScaleDoc \/ DeepJson \/ DeepXml \/ DeepConc \/ Repeat \/ Done
+Next == ScaleDoc \/ DeepJson \/ DeepXml \/ DeepConc \/ Repeat \/ NsDecl \/ Done
 =============================================================================
